@@ -135,6 +135,16 @@ def _r11_1(ctx, P):
                     ctx.report("R11.1", callf, inst, f"overriding `{opt}` disturbs the bound {others}")
                 else:
                     ctx.ok("R11.1", inst, "call-time value wins, the other bound options are kept")
+        # a call-time value that happens to be falsy (0, False) is still a value
+        for opt, val in (("fill_value", 0), ("fill_value", 0.0), ("map_overlap", False), ("pad_before_func", False)):
+            outs, calls, me, g, da = run_call({opt: val})
+            inst = f"call-time {opt}={val!r} overrides"
+            if any(o.kind != "return" for o in outs) or len(calls) != 1:
+                ctx.report("R11.1", callf, inst, f"passing {opt}={val!r} at call time fails")
+            elif calls[0][1].get(opt) != val or type(calls[0][1].get(opt)) is not type(val):
+                ctx.report("R11.1", callf, inst, f"a call-time {opt}={val!r} is treated as 'not given': apply_as_grid_ufunc receives {calls[0][1].get(opt)!r} (the value bound at definition)")
+            else:
+                ctx.ok("R11.1", inst, "falsy call-time value wins")
     except Unmodelled as e:
         ctx.unknown("R11.1", "GridUFunc.__call__", str(e))
 
@@ -335,6 +345,30 @@ def _r11_345(ctx, P):
     case("vector inputs with other_component", "(X:left),(Y:left)->(X:center)", [(AXs,), (AYs,)],
          lambda: ({AXs: make_da("u", [Sym("t"), dX("left"), dY("center")])}, {AYs: make_da("v", [Sym("t"), dX("center"), dY("left")])}), {"X": (0, 1), "Y": (0, 1)},
          [[dX("left")], [dY("left")]], [[dX("center")]], {AXs: (0, 1), AYs: (0, 1)}, other=[oc1, oc2], exp_other=[oc1, oc2])
+
+    # dummy names that coincide, crosswise, with the names of the real axes
+    try:
+        def grid_xy():
+            g = make_grid(("X", "Y"))
+            g.attrs["axes"] = {k.name: v for k, v in g.attrs["axes"].items()}  # axes keyed by the plain strings "X", "Y"
+            return g
+
+        outs = run_apply(P, "(X:center,Y:center)->(X:center,Y:center)", [("Y", "X")], args=lambda: (make_da("da", [Sym("t"), dimsym("Y", "center"), dimsym("X", "center")]),),
+                         boundary_width={"X": (1, 0), "Y": (0, 2)}, grid=grid_xy)
+        bad = None
+        for o in outs:
+            pads = _events(o, "pad")
+            if o.kind != "return" or not pads:
+                bad = f"{o.kind} {o.value}"
+            for p in pads:
+                if p[1] != {"Y": (1, 0), "X": (0, 2)}:
+                    bad = f"with signature axes (X, Y) bound to the real axes (Y, X), boundary_width {{X: (1, 0), Y: (0, 2)}} reaches pad() as {p[1]!r}; the dummy X is the real Y, so it must be {{Y: (1, 0), X: (0, 2)}}"
+        if bad:
+            ctx.report("R11.5", fi, "dummy names equal to real axis names, bound crosswise", bad)
+        else:
+            ctx.ok("R11.5", "dummy names equal to real axis names, bound crosswise", "widths follow the binding, not the spelling")
+    except Unmodelled as e:
+        ctx.unknown("R11.5", "dummy names equal to real axis names, bound crosswise", str(e))
 
     # -- R11.4 guards: must raise, and before anything is padded or applied
     def refuse(name, signature, axis, args, other=None, bw=None):
